@@ -15,6 +15,7 @@ import (
 	"time"
 
 	"verif/checker/internal/core"
+	"verif/checker/internal/norm"
 	"verif/checker/internal/rules"
 	"verif/checker/internal/selftest"
 )
@@ -31,6 +32,8 @@ func main() {
 		warm     = flag.Bool("warm", false, "load the repository once (warms the build cache) and exit")
 		jsonOut  = flag.String("json", "", "write the obligation ledger as JSON to this file")
 		selfOnly = flag.Bool("selftest-only", false, "run only the mutant self-test of the property")
+		dumpBase = flag.Bool("dump-baseline", false, "print the shape of the runtime package (functions, struct fields) as the normaliser's baseline and exit")
+		dumpNorm = flag.String("dump-normalised", "", "write the normalised source files into this directory and exit")
 	)
 	flag.Parse()
 	start := time.Now()
@@ -60,6 +63,35 @@ func main() {
 		for k, v := range m {
 			ov[k] = []byte(v)
 		}
+	}
+	if *dumpBase {
+		p, err := core.Load(core.LoadConfig{RepoDir: *repo, Patterns: []string{"."}})
+		if err != nil {
+			fatal(2, "load: %v", err)
+		}
+		b, err := norm.DumpBaseline(p.Pkg(""))
+		if err != nil {
+			fatal(2, "baseline: %v", err)
+		}
+		fmt.Println(string(b))
+		return
+	}
+	if *dumpNorm != "" {
+		_, ov2, notes, err := loadNormalised(core.LoadConfig{RepoDir: *repo, Overlay: ov})
+		if err != nil {
+			fatal(2, "load: %v", err)
+		}
+		for _, n := range notes {
+			fmt.Println(n)
+		}
+		for name, b := range ov2 {
+			if _, user := ov[name]; user && string(ov[name]) == string(b) {
+				continue
+			}
+			_ = os.MkdirAll(*dumpNorm, 0o755)
+			_ = os.WriteFile(filepath.Join(*dumpNorm, filepath.Base(name)), b, 0o644)
+		}
+		return
 	}
 	if *warm {
 		p, err := core.Load(core.LoadConfig{RepoDir: *repo})
@@ -102,7 +134,7 @@ func runOne(id string, r rules.Entry, tier, repo, verif string, ov map[string][]
 		// the examples module is a separate Go module with its own committed generated file
 		lc.Extra = []core.ExtraLoad{{Dir: filepath.Join(repo, "examples"), Patterns: []string{"./storage/proto"}}}
 	}
-	prog, err := core.Load(lc)
+	prog, _, normNotes, err := loadNormalised(lc)
 	if err != nil {
 		fmt.Printf("UNDECIDED property=%s load failure: %v\n", id, err)
 		return 2
@@ -112,6 +144,9 @@ func runOne(id string, r rules.Entry, tier, repo, verif string, ov map[string][]
 		return 2
 	}
 	l = core.NewLedger(prog, id, tier)
+	for _, nn := range normNotes {
+		l.Note("normalisation: %s", nn)
+	}
 	if !selfOnly {
 		r.Run(l)
 	}
@@ -160,6 +195,60 @@ func runOne(id string, r rules.Entry, tier, repo, verif string, ov map[string][]
 	meta.CheckerCmd = strings.Join(os.Args, " ")
 	res := l.Finish(verif, findings, start, seed, meta)
 	return res.ExitCode
+}
+
+// loadNormalised loads the program and, while the runtime package contains
+// unexported helpers or renamed declarations that the confirmed tree does not
+// have, rewrites them away (package norm) and loads again. If a rewritten
+// program does not type-check the rewrite is abandoned: the rules then see the
+// program as written.
+func loadNormalised(lc core.LoadConfig) (*core.Program, map[string][]byte, []string, error) {
+	prog, err := core.Load(lc)
+	if err != nil {
+		return nil, nil, nil, err
+	}
+	base, err := norm.LoadBaseline()
+	if err != nil {
+		return prog, lc.Overlay, []string{"baseline unreadable: " + err.Error()}, nil
+	}
+	var notes []string
+	cur := prog
+	ov := lc.Overlay
+	for round := 0; round < 6; round++ {
+		pk := cur.Pkg("")
+		if pk == nil {
+			break
+		}
+		res, err := norm.Normalise(pk, base, cur.ReadFile)
+		if err != nil || len(res.Overlay) == 0 {
+			break
+		}
+		next := map[string][]byte{}
+		for k, v := range ov {
+			next[k] = v
+		}
+		for k, v := range res.Overlay {
+			next[k] = v
+		}
+		lc2 := lc
+		lc2.Overlay = next
+		p2, err := core.Load(lc2)
+		if err != nil {
+			notes = append(notes, fmt.Sprintf("round %d abandoned (the rewritten program does not type-check: %v); rewrites of that round: %v", round+1, firstLine(err.Error()), res.Notes))
+			break
+		}
+		notes = append(notes, res.Notes...)
+		cur, ov = p2, next
+	}
+	return cur, ov, notes, nil
+}
+
+func firstLine(s string) string {
+	ls := strings.Split(s, "\n")
+	if len(ls) > 3 {
+		ls = ls[:3]
+	}
+	return strings.Join(ls, " | ")
 }
 
 func fatal(code int, format string, a ...any) {
